@@ -1097,4 +1097,8 @@ class FileParser(object):
 
         string_text = Word(textchars)
 
+        # 'Inf' and 'NaN' are numbers only as whole fields, not as the start of a longer word
+        # such as 'Information' or 'NaNs'.
+        nan = nan + ~Word(alphanums + '_').leaveWhitespace()
+
         self.line_parse_token = (OneOrMore((nan | num_float | mixed_exp | num_int | string_text)))
